@@ -36,6 +36,14 @@ type unitSpec struct {
 	decSkip map[string]bool
 	// the encoder emits more than the layout lists (variable tails etc.): only the listed bits are compared
 	partial bool
+	// encConst / encLens: the encoder is evaluated on the receivers whose integer field has this value and
+	// whose list has this length (a unit that describes one form of a data-dependent encoder); the layout's
+	// bits of an assumed field are then the bits of the constant
+	encConst map[string]uint64
+	encLens  map[string]int64
+	// encLayout: the layout as the encoder must produce it, where it says more than the decoder's view
+	// (a bit the decoder does not look at but the encoder must set)
+	encLayout []string
 }
 
 type specBit struct {
@@ -152,6 +160,11 @@ func wireBit(w bits.WireMap, p wirePos) (bits.Bit, bool) {
 
 // encVsSpec compares an encoder's wire map with the layout. It returns the mismatches.
 func encVsSpec(u *unitSpec, res *bits.EncResult) (checked int, bad []string) {
+	if u.encLayout != nil {
+		cp := *u
+		cp.layout, cp.encLayout = u.encLayout, nil
+		u = &cp
+	}
 	pos, exp, err := u.expand()
 	if err != nil {
 		return 0, []string{err.Error()}
@@ -177,6 +190,12 @@ func encVsSpec(u *unitSpec, res *bits.EncResult) (checked int, bad []string) {
 			want = bits.One
 		case 'f':
 			want = bits.Bit{K: bits.BSrc, Src: "F:" + e.field, I: e.bit}
+			if v, assumed := u.encConst[e.field]; assumed {
+				want = bits.Zero
+				if v>>uint(e.bit)&1 == 1 {
+					want = bits.One
+				}
+			}
 		case 'l':
 			want = bits.Bit{K: bits.BSrc, Src: "L:" + e.field, I: e.bit}
 		}
@@ -307,7 +326,7 @@ func decVsSpec(u *unitSpec, res *bits.DecResult) (checked int, bad []string) {
 
 // roundTrip checks enc then dec is the identity on every field bit that reaches the wire,
 // directly on the two extracted maps (independent of the layout table).
-func roundTrip(enc *bits.EncResult, dec *bits.DecResult, decAlt string, only map[string]bool) (checked int, bad []string) {
+func roundTrip(enc *bits.EncResult, dec *bits.DecResult, decAlt string, only map[string]bool, encConst map[string]uint64) (checked int, bad []string) {
 	if decAlt != "" {
 		for _, a := range dec.Alts {
 			for _, c := range a.Cond {
@@ -368,6 +387,13 @@ func roundTrip(enc *bits.EncResult, dec *bits.DecResult, decAlt string, only map
 				break
 			}
 			want := bits.Bit{K: bits.BSrc, Src: "F:" + f, I: j}
+			if v, assumed := encConst[f]; assumed {
+				// the encoder was evaluated with this field fixed: it must put the constant's bit there
+				want = bits.Zero
+				if v>>uint(j)&1 == 1 {
+					want = bits.One
+				}
+			}
 			if c[b.I] != want {
 				bad = append(bad, fmt.Sprintf("field %s bit %d is read from octet %s bit %d, where the encoder puts %s", f, j, cell, b.I, c[b.I]))
 			}
@@ -412,9 +438,13 @@ var layoutUnits = []*unitSpec{
 		decSkip: map[string]bool{}},
 	{name: "RunLengthChunk", rfc: "draft-holmer-rmcat-transport-wide-cc-extensions-01 3.1.3", enc: "RunLengthChunk.Marshal", dec: "*RunLengthChunk.Unmarshal",
 		layout: []string{"@0 0 PacketStatusSymbol:2 RunLength:13"}, decConst: map[string]uint64{"Type": 0}},
-	{name: "StatusVectorChunk/one-bit", rfc: "draft-holmer-rmcat-transport-wide-cc-extensions-01 3.1.4 (one-bit symbols)", enc: "", dec: "*StatusVectorChunk.Unmarshal", decAlt: "!W:0.6",
+	{name: "StatusVectorChunk/one-bit", rfc: "draft-holmer-rmcat-transport-wide-cc-extensions-01 3.1.4 (one-bit symbols)", enc: "StatusVectorChunk.Marshal", encConst: map[string]uint64{"SymbolSize": 0}, encLens: map[string]int64{"SymbolList": 14},
+		encLayout: []string{"@0 1 SymbolSize:1 SymbolList[0]:1 SymbolList[1]:1 SymbolList[2]:1 SymbolList[3]:1 SymbolList[4]:1 SymbolList[5]:1 SymbolList[6]:1 SymbolList[7]:1 SymbolList[8]:1 SymbolList[9]:1 SymbolList[10]:1 SymbolList[11]:1 SymbolList[12]:1 SymbolList[13]:1"},
+		dec: "*StatusVectorChunk.Unmarshal", decAlt: "!W:0.6",
 		layout: []string{"@0 _:1 SymbolSize:1 SymbolList[0]:1 SymbolList[1]:1 SymbolList[2]:1 SymbolList[3]:1 SymbolList[4]:1 SymbolList[5]:1 SymbolList[6]:1 SymbolList[7]:1 SymbolList[8]:1 SymbolList[9]:1 SymbolList[10]:1 SymbolList[11]:1 SymbolList[12]:1 SymbolList[13]:1"}, decConst: map[string]uint64{"Type": 1}},
-	{name: "StatusVectorChunk/two-bit", rfc: "draft-holmer-rmcat-transport-wide-cc-extensions-01 3.1.4 (two-bit symbols)", enc: "", dec: "*StatusVectorChunk.Unmarshal", decAlt: "W:0.6",
+	{name: "StatusVectorChunk/two-bit", rfc: "draft-holmer-rmcat-transport-wide-cc-extensions-01 3.1.4 (two-bit symbols)", enc: "StatusVectorChunk.Marshal", encConst: map[string]uint64{"SymbolSize": 1}, encLens: map[string]int64{"SymbolList": 7},
+		encLayout: []string{"@0 1 SymbolSize:1 SymbolList[0]:2 SymbolList[1]:2 SymbolList[2]:2 SymbolList[3]:2 SymbolList[4]:2 SymbolList[5]:2 SymbolList[6]:2"},
+		dec: "*StatusVectorChunk.Unmarshal", decAlt: "W:0.6",
 		layout: []string{"@0 _:1 SymbolSize:1 SymbolList[0]:2 SymbolList[1]:2 SymbolList[2]:2 SymbolList[3]:2 SymbolList[4]:2 SymbolList[5]:2 SymbolList[6]:2"}, decConst: map[string]uint64{"Type": 1}},
 	{name: "CCFeedbackMetricBlock", rfc: "RFC 8888 3.1 (metric block, received)", enc: "CCFeedbackMetricBlock.marshal", dec: "*CCFeedbackMetricBlock.unmarshal", decAlt: "W:0.7",
 		layout: []string{"@0 Received:1 ECN:2 ArrivalTimeOffset:13"}},
